@@ -261,5 +261,5 @@ Proof.
   destruct (r4Capacity q <? r4Filesize q) eqn:E2; [discriminate|].
   destruct (negb (r4SigsOk q)); [discriminate|]. destruct (negb (r4RootOk q)); [discriminate|].
   destruct (negb (r4StoreOk q)); [discriminate|].
-  intros H. injection H as <-. cbn. repeat split; lia.
+  intros H. injection H as <-. cbn [rroots]. repeat split; lia.
 Qed.
